@@ -19,6 +19,15 @@ package main
 //     (creation or destroy in progress: ownership may legitimately be in flux).
 //   * snapshots are judged only for environments that are in such an interval
 //     for the whole duration of the snapshot.
+//
+// A request that does not return ends the history; the core's goroutine dump
+// decides whether the expiry is one of three known progress defects outside this
+// property (counted as histories_abandoned_*) or inconclusive.
+//
+// Debugging: VERIF_ONLY=<index> runs one history, VERIF_KEEP=1 keeps the scratch
+// dir, VERIF_C04_REUSE=0|1 / VERIF_C04_DELAYS=0|1 force the settings,
+// VERIF_C04_TIMEOUT=<s> shortens the request watchdog, VERIF_C04_DUMP=<dir>
+// writes every history (requests, snapshots, master log) as JSON.
 
 import (
 	"context"
